@@ -138,7 +138,7 @@ package allocator
 //@ func (*Allocator).assign
 //@   modifies map[string]*alloc, map[Port]string, map[string]bool, map[string]int, map[string]PoolCounters, fresh *ipaddr.Prefix, fresh *ipaddr.Cursor, fresh *ipaddr.Position, fresh []ipaddr.Prefix, gint("cursor.pos"), fresh []string, fresh []interface{}, $held
 //@   requires [unlocked] lockstate(a.countersMutex) == 0
-//@   ensures [unlocked] lockstate(a.countersMutex) == 0
+//@   ensures [unlocked] lockstate(a.countersMutex) == 0 && lockframe(a.countersMutex)
 //@   requires [inv] Inv(a)
 //@   requires [cb] a.countersChangedCallback != nil
 //@   requires [wf] WFAlloc(alloc)
@@ -228,7 +228,7 @@ package allocator
 //@   requires Inv(a) && a.countersChangedCallback != nil && PoolsOK(a.pools.ByName)
 //@   modifies map[string]*alloc, map[Port]string, map[string]bool, map[string]int, map[string]PoolCounters, fresh *ipaddr.Prefix, fresh *ipaddr.Cursor, fresh *ipaddr.Position, fresh []ipaddr.Prefix, gint("cursor.pos"), fresh []string, fresh []interface{}, $held
 //@   requires [unlocked] lockstate(a.countersMutex) == 0
-//@   ensures [unlocked] lockstate(a.countersMutex) == 0
+//@   ensures [unlocked] lockstate(a.countersMutex) == 0 && lockframe(a.countersMutex)
 //@   ensures Inv(a)
 //@   ensures a.allocated[svc] == nil
 //@   ensures forall s string :: s != svc ==> a.allocated[s] == old(a.allocated[s])
@@ -352,7 +352,7 @@ package allocator
 //@ func (*Allocator).Assign
 //@   modifies map[string]*alloc, map[Port]string, map[string]bool, map[string]int, map[string]PoolCounters, fresh *ipaddr.Prefix, fresh *ipaddr.Cursor, fresh *ipaddr.Position, fresh []ipaddr.Prefix, gint("cursor.pos"), fresh []string, fresh []interface{}, fresh *alloc, fresh []Port, fresh *key, $held
 //@   requires [unlocked] lockstate(a.countersMutex) == 0
-//@   ensures [unlocked] lockstate(a.countersMutex) == 0
+//@   ensures [unlocked] lockstate(a.countersMutex) == 0 && lockframe(a.countersMutex)
 //@   requires [inv] Inv(a)
 //@   requires [cb] a.countersChangedCallback != nil && svc != nil
 //@   requires [pools] PoolsKeyedOK(a.pools.ByName)
@@ -575,7 +575,7 @@ package allocator
 //@ func (*Allocator).allocateFromPools
 //@   modifies map[string]*alloc, map[Port]string, map[string]bool, map[string]int, map[string]PoolCounters, fresh *ipaddr.Prefix, fresh *ipaddr.Cursor, fresh *ipaddr.Position, fresh []ipaddr.Prefix, gint("cursor.pos"), fresh []string, fresh []interface{}, fresh *alloc, fresh []Port, fresh *key, fresh *Allocation, fresh []net.IP, $held
 //@   requires [unlocked] lockstate(a.countersMutex) == 0
-//@   ensures [unlocked] lockstate(a.countersMutex) == 0
+//@   ensures [unlocked] lockstate(a.countersMutex) == 0 && lockframe(a.countersMutex)
 //@   requires Inv(a) && a.countersChangedCallback != nil && svc != nil && PoolsKeyedOK(a.pools.ByName) && PortsOK(ports) && PoolListOK(pools)
 //@   ensures Inv(a)
 //@   ensures [others] forall s string :: s != svcKey ==> a.allocated[s] == old(a.allocated[s])
@@ -686,7 +686,7 @@ package allocator
 //@ func (*Allocator).Allocate
 //@   modifies map[string]*alloc, map[Port]string, map[string]bool, map[string]int, map[string]PoolCounters, fresh *ipaddr.Prefix, fresh *ipaddr.Cursor, fresh *ipaddr.Position, fresh []ipaddr.Prefix, gint("cursor.pos"), fresh []string, fresh []interface{}, fresh *alloc, fresh []Port, fresh *key, fresh *Allocation, fresh []net.IP, fresh []*config.Pool, $held
 //@   requires [unlocked] lockstate(a.countersMutex) == 0
-//@   ensures [unlocked] lockstate(a.countersMutex) == 0
+//@   ensures [unlocked] lockstate(a.countersMutex) == 0 && lockframe(a.countersMutex)
 //@   requires AllocatorOK(a) && svc != nil && PortsOK(ports)
 //@   ensures Inv(a)
 //@   ensures [others] forall s string :: s != svcKey ==> a.allocated[s] == old(a.allocated[s])
@@ -733,7 +733,7 @@ package allocator
 //@ func (*Allocator).AllocateFromPool
 //@   modifies map[string]*alloc, map[Port]string, map[string]bool, map[string]int, map[string]PoolCounters, fresh *ipaddr.Prefix, fresh *ipaddr.Cursor, fresh *ipaddr.Position, fresh []ipaddr.Prefix, gint("cursor.pos"), fresh []string, fresh []interface{}, fresh *alloc, fresh []Port, fresh *key, fresh *Allocation, fresh []net.IP, $held
 //@   requires [unlocked] lockstate(a.countersMutex) == 0
-//@   ensures [unlocked] lockstate(a.countersMutex) == 0
+//@   ensures [unlocked] lockstate(a.countersMutex) == 0 && lockframe(a.countersMutex)
 //@   requires AllocatorOK(a) && svc != nil && PortsOK(ports)
 //@   ensures Inv(a)
 //@   ensures [others] forall s string :: s != svcKey ==> a.allocated[s] == old(a.allocated[s])
@@ -762,7 +762,7 @@ package allocator
 //@ func (*Allocator).AllocateFromPoolForAdditionalFamily
 //@   modifies map[string]*alloc, map[Port]string, map[string]bool, map[string]int, map[string]PoolCounters, fresh *ipaddr.Prefix, fresh *ipaddr.Cursor, fresh *ipaddr.Position, fresh []ipaddr.Prefix, gint("cursor.pos"), fresh []string, fresh []interface{}, fresh *alloc, fresh []Port, fresh *key, fresh *Allocation, fresh []net.IP, $held
 //@   requires [unlocked] lockstate(a.countersMutex) == 0
-//@   ensures [unlocked] lockstate(a.countersMutex) == 0
+//@   ensures [unlocked] lockstate(a.countersMutex) == 0 && lockframe(a.countersMutex)
 //@   requires AllocatorOK(a) && svc != nil && PortsOK(ports)
 //@   ensures Inv(a)
 //@   ensures [others] forall s string :: s != svcKey ==> a.allocated[s] == old(a.allocated[s])
@@ -794,5 +794,13 @@ package allocator
 //@   ensures [sum6] a.poolToCounters[p.Name].AssignedIPv6 + a.poolToCounters[p.Name].AvailableIPv6 >= 0
 //@   ensures [others] forall n string :: n != p.Name ==> a.poolToCounters[n] == old(a.poolToCounters[n]) && (n in a.poolToCounters) == old(n in a.poolToCounters)
 //@   requires [unlocked] lockstate(a.countersMutex) == 0
-//@   ensures [unlocked] lockstate(a.countersMutex) == 0
+//@   ensures [unlocked] lockstate(a.countersMutex) == 0 && lockframe(a.countersMutex)
 //@   modifies map(a.poolToCounters), fresh *ipaddr.Prefix, fresh *ipaddr.Cursor, fresh *ipaddr.Position, fresh []ipaddr.Prefix, gint("cursor.pos"), fresh []string, $held
+
+// SetPools: only its lock discipline is verified so far (it rewrites the counters map under countersMutex and
+// must not hold that lock when it calls Unassign / assign / updatePoolStats, which take it themselves).
+//@ func (*Allocator).SetPools
+//@   lockonly
+//@   requires a != nil && lockstate(a.countersMutex) == 0
+//@   ensures lockstate(a.countersMutex) == 0
+//@   modifies $held
